@@ -25,6 +25,7 @@ from agilerl.typing import (
     TensorDict,
     TorchObsType,
 )
+from agilerl.utils import verif_hooks
 from agilerl.utils.algo_utils import (
     concatenate_experiences_into_batches,
     concatenate_tensors,
@@ -651,6 +652,15 @@ class IPPO(MultiAgentRLAlgorithm):
                     + self.gamma * self.gae_lambda * next_non_terminal * last_gae_lambda
                 )
 
+            verif_hooks.record(
+                "ippo.gae",
+                rewards=rewards,
+                dones=dones,
+                values=values,
+                next_value=next_value,
+                next_done=next_done,
+                advantages=advantages,
+            )
             advantages = advantages.reshape((-1,))
             values = values.reshape((-1,))
             returns = advantages + values
@@ -662,6 +672,7 @@ class IPPO(MultiAgentRLAlgorithm):
 
         # Move experiences to algo device
         experiences = self.to_device(*experiences)
+        verif_hooks.record("ippo.rows", experiences=experiences)
 
         num_samples = experiences[4].size(0)
         batch_idxs = np.arange(num_samples)
